@@ -355,3 +355,102 @@ func vraceRun(t *testing.T, withReload bool) {
 
 func TestVerifIngestRaceNoReload(t *testing.T) { vraceRun(t, false) }
 func TestVerifIngestRaceReload(t *testing.T)   { vraceRun(t, true) }
+
+// ---- connection vs sweep under real concurrency (no gates): a linearizability oracle at quiescence.
+// Every registration is valid, unused and 11 minutes old when one sweep and several connection handlers start together.
+// Whatever the interleaving INSIDE the locked methods, each registration must end in one of the two serial outcomes:
+//   handler first : marked used (Update announced)  => younger than 6 h and used => the sweep must keep it
+//   sweep first   : removed                          => the handler finds nothing, no Update is announced
+// "Update announced and removed" (a used registration younger than 6 h dropped) or "kept although never used" are violations.
+func TestVerifSweepMarkStress(t *testing.T) {
+	out := vOpenOut(t)
+	defer out.Close()
+	rounds := vEnvInt("VERIF_ROUNDS", 30)
+	nregs := vEnvInt("VERIF_REGS", 400)
+	verifhook.SetYield(nil)
+	logger := log.New(io.Discard, "", 0)
+	Stat() // the statistics singleton must exist before the sweep uses it
+	removedUsed, keptUnused, usedKept, removedTotal := 0, 0, 0, 0
+	for round := 0; round < rounds; round++ {
+		rd := NewRegisteredDecoys()
+		rd.transports[pb.TransportType_Min] = min.Transport{}
+		var updMu sync.Mutex
+		upd := map[*DecoyRegistration]int{}
+		rd.registerForDetector = func(d *DecoyRegistration) {}
+		rd.updateInDetector = func(d *DecoyRegistration) { updMu.Lock(); upd[d]++; updMu.Unlock() }
+		regs := make([]*DecoyRegistration, nregs)
+		src := pb.RegistrationSource_API
+		for i := range regs {
+			secret := vSecret(fmt.Sprintf("sweepmark-%d-%d", round, i))
+			keys, _ := core.GenSharedKeys(uint(core.CurrentClientLibraryVersion()), secret, pb.TransportType_Min)
+			d := &DecoyRegistration{PhantomIp: net.ParseIP(fmt.Sprintf("192.0.2.%d", 1+i%200)), PhantomPort: 443, Keys: &keys,
+				Transport: pb.TransportType_Min, RegistrationSource: &src, registrationAddr: net.ParseIP("198.51.100.7")}
+			if err := rd.register(d.PhantomIp.String(), d); err != nil {
+				t.Fatal(err)
+			}
+			regs[i] = d
+		}
+		for _, to := range rd.decoysTimeouts {
+			to.registrationTime = time.Now().Add(-11 * time.Minute)
+		}
+		start := make(chan struct{})
+		var wg sync.WaitGroup
+		wg.Add(1)
+		go func() { defer wg.Done(); <-start; rd.removeOldRegistrations(logger) }()
+		for h := 0; h < 6; h++ {
+			wg.Add(1)
+			go func(h int) {
+				defer wg.Done()
+				r := newVRand(vSeed()*7919 + int64(round*100+h))
+				<-start
+				// walk the registrations in the order a sweep is likely to visit them is unknowable (map order): visit all, twice
+				for pass := 0; pass < 2; pass++ {
+					off := r.Intn(nregs)
+					for i := 0; i < nregs; i++ {
+						d := regs[(i+off)%nregs]
+						id := min.Transport{}.GetIdentifier(d)
+						if found, ok := rd.getRegistrations(d.PhantomIp)[id]; ok {
+							rd.markActive(found)
+						}
+					}
+				}
+			}(h)
+		}
+		close(start)
+		wg.Wait()
+		for i, d := range regs {
+			updMu.Lock()
+			used := upd[d] > 0
+			updMu.Unlock()
+			present := rd.registrationExists(d) != nil
+			switch {
+			case used && !present:
+				removedUsed++
+				if removedUsed <= 5 {
+					out.Emit(map[string]any{"kind": "prop", "prop": "NeverRemovedEarly", "round": round, "reg": i,
+						"detail": "a connection marked the registration used (Update announced, 6 h lifetime) while the sweep was removing it; the sweep removed it anyway although it is younger than 6 h"})
+				}
+			case used && present:
+				usedKept++
+			case !used && !present:
+				removedTotal++
+			}
+		}
+		// what was neither used nor removed (a handler lost the race after the sweep collected) must go with the next sweep
+		rd.removeOldRegistrations(logger)
+		for i, d := range regs {
+			updMu.Lock()
+			used := upd[d] > 0
+			updMu.Unlock()
+			if !used && rd.registrationExists(d) != nil {
+				keptUnused++
+				if keptUnused <= 5 {
+					out.Emit(map[string]any{"kind": "prop", "prop": "PostSweepExact", "round": round, "reg": i,
+						"detail": "an unused registration older than 10 min is still tracked after a completed sweep"})
+				}
+			}
+		}
+	}
+	out.Emit(map[string]any{"kind": "summary", "rounds": rounds, "regs": nregs, "used_kept": usedKept, "removed": removedTotal,
+		"removed_although_used": removedUsed, "kept_although_unused": keptUnused})
+}
